@@ -79,8 +79,7 @@ def build_sorted_modules():
                    'all(same(yielded[j], entry(3, yielded)[j]) for j in range(len(entry(3, yielded))))',
                    'same(deps, entry(3, deps))', DEPS_SEEN % 'len(entry(3, yielded))'], index='p3', seq='M3_'),
       },
-      asserts={'for module in group': [DEPS_SEEN % 'len(yielded)'],
-               'deps += tuple(second_pass_deps)': [DEPS_SEEN % 'len(yielded)']},
+      asserts={'deps += tuple(second_pass_deps)': [DEPS_SEEN % 'len(yielded)']},
       result=S.Seq(Item),
       ghost={'modules': S.Seq(MA), 'second_pass_deps': SeqM, 'deps': SeqM, 'group': SeqM}))
   return T
